@@ -2,7 +2,7 @@
    Directives in force: those of ExtrOcamlBasic, ExtrOcamlChar, ExtrOcamlString
    (listed in DESIGN.md section 6); nat/N/Z/positive stay inductive. *)
 From Coq Require Extraction ExtrOcamlBasic ExtrOcamlChar ExtrOcamlString.
-From CV Require Import Model.Base Model.Effector Model.RoleGraph Model.PathMatch Model.Expr Model.Enforce Model.Engine Model.SpecC01 Model.Cached.
+From CV Require Import Model.Base Model.Effector Model.RoleGraph Model.PathMatch Model.Expr Model.Enforce Model.Engine Model.SpecC01 Model.Cached Model.Csv Model.Ini.
 Extraction Blacklist String List Char Bool Nat.
 Set Extraction KeepSingleton.
 Extraction "../extracted/model.ml"
@@ -13,4 +13,6 @@ Extraction "../extracted/model.ml"
   regex_match_words render2 render3 grammar spec_km spec_km4 spec_km5 spec_get before_star is_prefix
   step ask new_enforcer reload_view count_us m_get_all
   perm_ref_plain perm_ref_ctx outcome_eqb
-  cstep cenforce crun prun.
+  cstep cenforce crun prun
+  parse_csv_line csv_field parsed_lines render_line_file render_line_string render_row csv_safe ptype_safe
+  parse_config remove_comment model_of_text to_text.
